@@ -143,6 +143,9 @@ where
 
         if let Some(captures) = diff_pattern.captures(&line) {
             current_file = Some(captures.get(1).unwrap().as_str().to_owned());
+        } else if line.starts_with("+++ ") {
+            // Fewer path components than `skip_prefix`: the hunks that follow name no file.
+            current_file = None;
         }
 
         let file = match current_file {
